@@ -50,6 +50,10 @@ def generate(tier, rng):
             fr.append(gens.ns6(gens.PEER6, gens.SELF6, opts=opts))
         fr.append(gens.ns6(gens.PEER6, gens.OTHER6))
         fr.append(gens.ns6(gens.PEER6, gens.SELF6, dst=gens.SELF6, mac_dst=cfg.mac))
+        # a solicitation for a handled target carried to a unicast address that is not handled (only the target decides)
+        for d in (gens.OTHER6, "fe80::1", "2001:db8::77", gens.PEER6):
+            fr.append(gens.ns6(gens.PEER6, gens.SELF6, dst=d, mac_dst=cfg.mac))
+            fr.append(gens.ns6(gens.PEER6, gens.OTHER6, dst=d, mac_dst=cfg.mac))
         fr.append(gens.echo6(gens.PEER6, gens.OTHER6))
         fr.append(gens.echo6(gens.PEER6, "ff02::1", mac_dst=bytes.fromhex("333300000001")))
         yield Script(cfg, fr, "echo-sizes+ns-layouts")
